@@ -266,6 +266,9 @@ func (ef *Filter) Process(ctx context.Context, e *eventlogger.Event) (*eventlogg
 			}
 		// if the field is a slice of structs, recurse through them...
 		default:
+			// strings held by the elements (a slice of interfaces) are
+			// filtered like the elements of a []string payload.
+			classificationTag := getClassificationFromTagString(string(SecretClassification), withFilterOperations(filterOverrides))
 			for i := 0; i < payloadValue.Len(); i++ {
 				f := payloadValue.Index(i)
 				if ef.ignore(f) {
@@ -277,6 +280,8 @@ func (ef *Filter) Process(ctx context.Context, e *eventlogger.Event) (*eventlogg
 						return nil, fmt.Errorf("%s: %w", op, err)
 					}
 				}
+				f, storeBack := elemValue(f)
+				orig := f
 				if f.Kind() == reflect.Ptr {
 					if f.IsNil() {
 						continue
@@ -288,23 +293,30 @@ func (ef *Filter) Process(ctx context.Context, e *eventlogger.Event) (*eventlogg
 				}
 				fkind := f.Kind()
 				switch {
+				case f.Type() == reflect.TypeOf("") || f.Type() == reflect.TypeOf([]uint8{}):
+					if err := ef.filterValue(ctx, f, classificationTag, opts...); err != nil {
+						return nil, fmt.Errorf("%s: %w", op, err)
+					}
 				case fkind == reflect.Map:
 					// notice the use of the orig field reflect.Value
 					// before ptrs are converted via f := f.Elem()
 					// this is required to match up with the fieldIsTaggable
 					// for tracking of maps
-					tm.trackMap(&tMap{value: payloadValue.Index(i)})
+					tm.trackMap(&tMap{value: orig})
 				case fkind == reflect.Struct:
 					if err := ef.filterField(ctx, f, filterOverrides, tm, opts...); err != nil {
 						return nil, fmt.Errorf("%s: %w", op, err)
 					}
 				case fkind == reflect.Slice:
 					// a slice of slices: the inner slice's elements are filtered too
-					if err := ef.filterSliceElements(ctx, f, filterOverrides, tm, opts...); err != nil {
+					if err := ef.filterSliceElements(ctx, f, classificationTag, filterOverrides, tm, opts...); err != nil {
 						return nil, fmt.Errorf("%s: %w", op, err)
 					}
 				default:
 					// nothing reasonable yet...
+				}
+				if storeBack != nil {
+					storeBack()
 				}
 			}
 		}
@@ -433,6 +445,10 @@ func (ef *Filter) filterField(ctx context.Context, v reflect.Value, filterOverri
 				}
 			// if the field is a slice of structs, recurse through them...
 			default:
+				// strings held by the elements (a slice of interfaces, a
+				// slice of slices of strings) are filtered as the field's
+				// tag says, like the elements of a []string field.
+				classificationTag := getClassificationFromTag(v.Type().Field(i).Tag, withFilterOperations(filterOverrides))
 				for i := 0; i < field.Len(); i++ {
 					f := field.Index(i)
 					if ef.ignore(f) {
@@ -444,6 +460,8 @@ func (ef *Filter) filterField(ctx context.Context, v reflect.Value, filterOverri
 							return fmt.Errorf("%s: %w", op, err)
 						}
 					}
+					f, storeElem := elemValue(f)
+					orig := f
 					if f.Kind() == reflect.Ptr {
 						if f.IsNil() {
 							continue
@@ -455,23 +473,30 @@ func (ef *Filter) filterField(ctx context.Context, v reflect.Value, filterOverri
 					}
 					fkind := f.Kind()
 					switch {
+					case f.Type() == reflect.TypeOf("") || f.Type() == reflect.TypeOf([]uint8{}):
+						if err := ef.filterValue(ctx, f, classificationTag, opt...); err != nil {
+							return fmt.Errorf("%s: %w", op, err)
+						}
 					case fkind == reflect.Map:
 						// notice the use of the orig field reflect.Value
 						// before ptrs are converted via f := f.Elem()
 						// this is required to match up with the fieldIsTaggable
 						// for tracking of maps
-						tm.trackMap(&tMap{value: field.Index(i)})
+						tm.trackMap(&tMap{value: orig})
 					case fkind == reflect.Struct:
 						if err := ef.filterField(ctx, f, filterOverrides, tm, opt...); err != nil {
 							return err
 						}
 					case fkind == reflect.Slice:
 						// a slice of slices: the inner slice's elements are filtered too
-						if err := ef.filterSliceElements(ctx, f, filterOverrides, tm, opt...); err != nil {
+						if err := ef.filterSliceElements(ctx, f, classificationTag, filterOverrides, tm, opt...); err != nil {
 							return err
 						}
 					default:
 						// nothing reasonable yet...
+					}
+					if storeElem != nil {
+						storeElem()
 					}
 				}
 			}
@@ -515,36 +540,65 @@ func (ef *Filter) filterField(ctx context.Context, v reflect.Value, filterOverri
 	return nil
 }
 
+// elemValue returns the value of a slice element, with an interface in front
+// of it looked through. A value held directly in the interface (a string, a
+// struct, ...) is not settable: a settable copy of it is returned, together
+// with a func which stores the (filtered) copy back in the element.
+func elemValue(elem reflect.Value) (reflect.Value, func()) {
+	if elem.Kind() != reflect.Interface || elem.IsNil() {
+		return elem, nil
+	}
+	v := elem.Elem()
+	switch v.Kind() {
+	case reflect.Ptr, reflect.Map:
+		// what they refer to is filtered in place
+		return v, nil
+	}
+	cp := reflect.New(v.Type()).Elem()
+	cp.Set(v)
+	return cp, func() { elem.Set(cp) }
+}
+
 // filterSliceElements will filter the elements of a slice found within another
 // slice (a [][]T): structs, pointers to structs, maps and further slices of
-// those are filtered just as they are when the outer slice holds them directly.
-func (ef *Filter) filterSliceElements(ctx context.Context, slice reflect.Value, filterOverrides map[DataClassification]FilterOperation, tm *trackedMaps, opt ...Option) error {
+// those are filtered just as they are when the outer slice holds them directly,
+// strings and []byte are filtered as the classificationTag says.
+func (ef *Filter) filterSliceElements(ctx context.Context, slice reflect.Value, classificationTag *tagInfo, filterOverrides map[DataClassification]FilterOperation, tm *trackedMaps, opt ...Option) error {
 	const op = "event.(Filter).filterSliceElements"
 	for i := 0; i < slice.Len(); i++ {
 		f := slice.Index(i)
 		if ef.ignore(f) {
 			continue
 		}
+		f, storeBack := elemValue(f)
+		orig := f
 		if f.Kind() == reflect.Ptr {
 			if f.IsNil() {
 				continue
 			}
 			f = f.Elem()
 		}
-		switch f.Kind() {
-		case reflect.Map:
-			// track the orig element (before any pointer was dereferenced)
-			if err := tm.trackMap(&tMap{value: slice.Index(i)}); err != nil {
+		switch {
+		case f.Type() == reflect.TypeOf("") || f.Type() == reflect.TypeOf([]uint8{}):
+			if err := ef.filterValue(ctx, f, classificationTag, opt...); err != nil {
 				return fmt.Errorf("%s: %w", op, err)
 			}
-		case reflect.Struct:
+		case f.Kind() == reflect.Map:
+			// track the orig element (before any pointer was dereferenced)
+			if err := tm.trackMap(&tMap{value: orig}); err != nil {
+				return fmt.Errorf("%s: %w", op, err)
+			}
+		case f.Kind() == reflect.Struct:
 			if err := ef.filterField(ctx, f, filterOverrides, tm, opt...); err != nil {
 				return fmt.Errorf("%s: %w", op, err)
 			}
-		case reflect.Slice:
-			if err := ef.filterSliceElements(ctx, f, filterOverrides, tm, opt...); err != nil {
+		case f.Kind() == reflect.Slice:
+			if err := ef.filterSliceElements(ctx, f, classificationTag, filterOverrides, tm, opt...); err != nil {
 				return err
 			}
+		}
+		if storeBack != nil {
+			storeBack()
 		}
 	}
 	return nil
